@@ -651,3 +651,138 @@ func pausedRelease(o *hc.Out, bin, scratch string) {
 		o.Count("paused_release")
 	}
 }
+
+// pausedCommit: "…holds a table for update from its first data-changing or FOR UPDATE statement until its transaction
+// ends".  P1 takes table a for update WITHOUT changing it (SELECT … FOR UPDATE, DML that matches no record) and changes
+// other tables; it is traced once (VERIF_TRACE) and then held (VERIF_PAUSE_AT) at every point it passes during COMMIT
+// (tx.commit.* of Transaction.Commit, commit.* of Handler.commit) in turn, while P2 tries to change a with a waiting
+// time of 0.5 s.  Law table_released_before_transaction_end: while P1 is inside COMMIT, P2 must fail with the lock
+// timeout and a.csv stays as it was; P1 then commits its own changes.
+func pausedCommit(o *hc.Out, bin, scratch string) {
+	type scen struct{ name, p1 string }
+	scens := []scen{
+		{"for_update_then_update", "SELECT v FROM a FOR UPDATE; UPDATE b SET v = 'B1';"},
+		{"for_update_then_update_commit", "SELECT v FROM a FOR UPDATE; UPDATE b SET v = 'B1'; COMMIT;"},
+		{"dml_without_match", "UPDATE a SET v = 'X' WHERE id = 999; DELETE FROM a WHERE id = 998; UPDATE b SET v = 'B1'; COMMIT;"},
+		{"three_tables", "SELECT v FROM a FOR UPDATE; UPDATE b SET v = 'B1'; INSERT INTO c VALUES (2, 'C1'); COMMIT;"},
+		{"created_and_updated", "SELECT v FROM a FOR UPDATE; CREATE TABLE `n.csv` (x); INSERT INTO `n.csv` VALUES (1); UPDATE b SET v = 'B1'; COMMIT;"},
+	}
+	const initial = "id,v\n1,10\n"
+	setup := func(d string) {
+		_ = os.RemoveAll(d)
+		_ = os.MkdirAll(filepath.Join(d, "repo"), 0o755)
+		for _, t := range []string{"a.csv", "b.csv", "c.csv"} {
+			_ = os.WriteFile(filepath.Join(d, "repo", t), []byte(initial), 0o644)
+		}
+	}
+	type job struct {
+		sc    scen
+		point string
+	}
+	var jobs []job
+	for i, sc := range scens {
+		d := filepath.Join(scratch, fmt.Sprintf("c09x-trace-%d", i))
+		setup(d)
+		cmd := exec.Command(bin, "--repository", filepath.Join(d, "repo"), "--quiet", "--wait-timeout", "1", sc.p1)
+		cmd.Dir = filepath.Join(d, "repo")
+		cmd.Env = append(os.Environ(), "HOME="+d, "VERIF_TRACE="+filepath.Join(d, "trace"))
+		_ = cmd.Run()
+		tr, _ := os.ReadFile(filepath.Join(d, "trace"))
+		seen := map[string]int{}
+		for _, p := range strings.Fields(string(tr)) {
+			seen[p]++
+			if p == "tx.commit.encoded" && 1 < seen[p] {
+				break // the automatic commit at the end of a script that has already committed: the transaction is over
+			}
+			if strings.HasPrefix(p, "tx.commit.") || strings.HasPrefix(p, "commit.") {
+				jobs = append(jobs, job{sc, fmt.Sprintf("%s#%d", p, seen[p])})
+			}
+		}
+		_ = os.RemoveAll(d)
+	}
+	type result struct {
+		laws []string
+		rep  map[string]interface{}
+		sig  string
+	}
+	results := make([]result, len(jobs))
+	sem := make(chan struct{}, 6)
+	var wg sync.WaitGroup
+	for i, jb := range jobs {
+		wg.Add(1)
+		go func(i int, jb job) {
+			defer wg.Done()
+			sem <- struct{}{}
+			defer func() { <-sem }()
+			base := filepath.Join(scratch, fmt.Sprintf("c09x-%d", i))
+			setup(base)
+			d := filepath.Join(base, "repo")
+			defer func() { _ = os.RemoveAll(base) }()
+			gate := filepath.Join(base, "gate")
+			run := func(wait, stmt string, env ...string) (string, int) {
+				cmd := exec.Command(bin, "--repository", d, "--quiet", "--wait-timeout", wait, stmt)
+				cmd.Dir = d
+				cmd.Env = append(append(os.Environ(), "HOME="+base), env...)
+				var out bytes.Buffer
+				cmd.Stdout, cmd.Stderr = &out, &out
+				err := cmd.Run()
+				rc := 0
+				if ee, ok := err.(*exec.ExitError); ok {
+					rc = ee.ExitCode()
+				} else if err != nil {
+					rc = -1
+				}
+				return out.String(), rc
+			}
+			var out1 string
+			var rc1 int
+			done := make(chan struct{})
+			go func() {
+				out1, rc1 = run("2", jb.sc.p1, "VERIF_PAUSE_AT="+jb.point+":"+gate)
+				close(done)
+			}()
+			reached := false
+			for k := 0; k < 2000 && !reached; k++ {
+				if _, err := os.Stat(gate + ".reached"); err == nil {
+					reached = true
+					break
+				}
+				select {
+				case <-done:
+					k = 2000
+				case <-time.After(5 * time.Millisecond):
+				}
+			}
+			during := strings.Join(controlFiles(d), " ")
+			out2, rc2 := run("0.5", "UPDATE a SET v = 99; COMMIT;")
+			aDuring, _ := os.ReadFile(filepath.Join(d, "a.csv"))
+			_ = os.WriteFile(gate, nil, 0o644)
+			<-done
+			bEnd, _ := os.ReadFile(filepath.Join(d, "b.csv"))
+			rep := map[string]interface{}{"scenario": jb.sc.name, "P1": jb.sc.p1, "P1_held_at": jb.point, "held": reached, "control_files_while_P1_is_held": during,
+				"P2": "UPDATE a SET v = 99; COMMIT;", "P2_wait_timeout": 0.5, "P2_exit_code": rc2, "P2_output": out2, "a_csv_while_P1_is_inside_COMMIT": string(aDuring),
+				"P1_exit_code": rc1, "P1_output": out1, "b_csv_at_the_end": string(bEnd)}
+			var laws []string
+			if reached && (rc2 == 0 || !strings.Contains(out2, "lock wait timeout") || string(aDuring) != initial) {
+				laws = append(laws, "table_released_before_transaction_end")
+			}
+			if rc1 != 0 || !strings.Contains(string(bEnd), "B1") {
+				laws = append(laws, "paused_commit_failed")
+			}
+			if left := controlFiles(d); 0 < len(left) {
+				rep["control_files_left"] = left
+				laws = append(laws, "control_files_left")
+			}
+			results[i] = result{laws, rep, fmt.Sprintf("pausedcommit:%s:%s:%v:%d", jb.sc.name, jb.point, reached, rc2)}
+		}(i, jb)
+	}
+	wg.Wait()
+	for _, r := range results {
+		for _, l := range r.laws {
+			o.Law(l, r.rep)
+		}
+		o.Eval()
+		o.NonTrivial(r.sig)
+		o.Count("paused_commit")
+	}
+}
